@@ -2,6 +2,7 @@ package checks
 
 import (
 	"fmt"
+	"runtime"
 	"strings"
 	"sync"
 	"testing"
@@ -35,6 +36,7 @@ type c07Case struct {
 	Keyspaces []string    `json:"keyspaces"` // existing keyspaces (exact ids)
 	Clients   []c07Client `json:"clients"`
 	Actions   []c07Action `json:"actions"`
+	Busy      bool        `json:"busy,omitempty"` // spin on every processor while a USE of a missing keyspace is in flight
 }
 
 func c07Check(c c07Case) *evid.Fail {
@@ -67,6 +69,24 @@ func c07Check(c c07Case) *evid.Fail {
 		r := rs[ci]
 		s := r.nextStream()
 		from := r.c.NumFrames()
+		if c.Busy && !exists[fakecass.CQLIdent(spelling)] {
+			// schedule pressure while the proxy finds out that the keyspace does not exist: every processor gets
+			// spinning goroutines, so the proxy's goroutines run in whatever order the scheduler picks (this is how
+			// a loaded machine looks to the proxy; it only widens the set of interleavings explored)
+			stop := make(chan struct{})
+			defer close(stop)
+			for i := 0; i < 3*runtime.GOMAXPROCS(0); i++ {
+				go func() {
+					for {
+						select {
+						case <-stop:
+							return
+						default:
+						}
+					}
+				}()
+			}
+		}
 		stallReset()
 		if err := r.c.SendMsg(r.v, s, &message.Query{Query: "USE " + spelling, Options: &message.QueryOptions{Consistency: primitive.ConsistencyLevelOne}}, r.compress); err != nil {
 			return "", evid.Failf("harness-send", "%v", err)
@@ -231,7 +251,7 @@ func useClass(spelling string) string {
 }
 
 func c07Gen(rt *rapid.T) c07Case {
-	c := c07Case{Hosts: rapid.IntRange(1, 2).Draw(rt, "hosts")}
+	c := c07Case{Hosts: rapid.IntRange(1, 2).Draw(rt, "hosts"), Busy: rapid.IntRange(0, 3).Draw(rt, "busy") == 0}
 	pool := []string{"ks1", "ks2", "sales", "Sales", "MixedKs", "k", "with_underscore"}
 	for _, k := range pool {
 		if rapid.IntRange(0, 2).Draw(rt, "exists") > 0 {
